@@ -362,6 +362,10 @@ class BaseFullCache(BaseCache):
 
             return self._read_input_output_data(indices, input_data)
 
+        # An entry without output data (e.g. created by a linearization without
+        # execution) must not hide a later entry holding the output data:
+        # the discipline would be executed again at every call.
+        entry_without_outputs = None
         for indices in self._hashes_to_indices.values():
             for index in indices:
                 cached_input_data = self._read_data(index, self.Group.INPUTS)
@@ -370,7 +374,15 @@ class BaseFullCache(BaseCache):
                 ):
                     output_data = self._read_data(index, self.Group.OUTPUTS)
                     jacobian_data = self._read_data(index, self.Group.JACOBIAN)
-                    return CacheEntry(input_data, output_data, jacobian_data)
+                    entry = CacheEntry(input_data, output_data, jacobian_data)
+                    if output_data:
+                        return entry
+
+                    if entry_without_outputs is None:
+                        entry_without_outputs = entry
+
+        if entry_without_outputs is not None:
+            return entry_without_outputs
 
         return CacheEntry(input_data, {}, {})
 
